@@ -28,6 +28,9 @@ def mk_exc(kind):
         return BrokenPipeError(errno.EPIPE, "pipe")
     if kind == "oserror":
         return OSError(errno.EIO, "io")
+    if kind in ("emfile", "enfile", "eafnosupport", "enobufs", "eacces"):
+        # the errno values socket() / setsockopt() really fail with (too many open files, family not supported ...): plain OSErrors all the same
+        return OSError(getattr(errno, kind.upper()), kind)
     if kind == "eintr":
         return InterruptedError(errno.EINTR, "interrupted system call")
     if kind == "gaierror":
